@@ -1298,7 +1298,32 @@ func (r *runningStep) startStage(container deployer.Plugin) (bool, int64, error)
 		}
 	}
 
+	// The schema is read from the plugin itself, and nothing but the end of the connection ends that
+	// read. If the step is closed before the plugin has answered, close the container.
+	const schemaReading, schemaReadDone, schemaReadAborted = 0, 1, 2
+	var schemaReadState atomic.Int32
+	schemaRead := make(chan struct{})
+	r.wg.Add(1)
+	go func() {
+		defer r.wg.Done()
+		select {
+		case <-r.ctx.Done():
+			if !schemaReadState.CompareAndSwap(schemaReading, schemaReadAborted) {
+				return // The plugin has answered in the meantime.
+			}
+			if err := container.Close(); err != nil {
+				r.logger.Warningf("failed to close deployed container for step %s/%s", r.runID, r.pluginStepID)
+			}
+		case <-schemaRead:
+		}
+	}()
 	inputSchema, err := r.atpClient.ReadSchema()
+	aborted := !schemaReadState.CompareAndSwap(schemaReading, schemaReadDone)
+	close(schemaRead)
+	if aborted {
+		r.logger.Debugf("step closed while reading the schema of the plugin")
+		return true, 0, nil
+	}
 	if err != nil {
 		return false, 0, err
 	}
